@@ -61,7 +61,37 @@ pub fn gen_lookup_op(rng: &mut Rng, spec: &crate::world::WorldSpec, alphabet: us
     s
 }
 
+/// link chains of exact lengths around the two budgets (kernel: 40 links, emulated resolver: 127):
+/// c0 -> c1 -> ... -> c(n-1) -> target; looked up as a final and as an intermediate component
+pub const CHAIN_LENGTHS: [usize; 12] = [1, 19, 20, 39, 40, 41, 42, 100, 127, 128, 129, 200];
+pub fn chain_case(uni: &UniCfg, variant: u64) -> Case {
+    let n = CHAIN_LENGTHS[variant as usize % CHAIN_LENGTHS.len()];
+    let mut w = crate::world::WorldSpec::default();
+    w.push(crate::world::Entry::dir("root"));
+    w.push(crate::world::Entry::file("root/tgt/file", "CHAIN-TARGET"));
+    for i in 0..n {
+        let body = if i + 1 == n { "tgt".to_string() } else { format!("c{}", i + 1) };
+        w.push(crate::world::Entry::link(&format!("root/c{i}"), &body));
+    }
+    w.push(crate::world::Entry::file("outside/secret", "OUTSIDE-SECRET"));
+    let o = OpSpec::new;
+    let mut c = Case::new("C01", "quiescent", uni.clone());
+    c.world = Some(w);
+    c.jobs = vec![vec![
+        o(Op::Resolve { path: "c0".into(), nofollow: false }),
+        o(Op::Resolve { path: "c0/file".into(), nofollow: false }).c(),
+        o(Op::OpenSubpath { path: "c0/file".into(), flags: libc::O_RDONLY }),
+        o(Op::Resolve { path: "c0".into(), nofollow: true }),
+        o(Op::Readlink { path: "c1".into(), bufsz: 64 }),
+        o(Op::Resolve { path: "c0/../c0/file".into(), nofollow: false }),
+    ]];
+    c
+}
+
 pub fn gen_case(seed: u64, idx: u64, uni: &UniCfg) -> Case {
+    if idx % 97 == 11 {
+        return chain_case(uni, idx / 97 + seed);
+    }
     let mut rng = Rng::new(rng::derive(seed, "C01", idx));
     let mut wp = gen::WorldParams::swarm(&mut rng);
     wp.long_chains = true;
@@ -217,8 +247,23 @@ pub fn refine(clause: String, detail: String, rec: &OpRecord, links_followed: us
     if path.is_empty() && (clause == "library-succeeds-kernel-fails" || clause == "errno-differs") && detail.contains("kernel says ENOENT") | detail.contains("vs kernel ENOENT") {
         return ("empty-path-not-enoent".into(), format!("empty path: {detail}"));
     }
-    if links_followed > 20 && detail.contains("kernel") && detail.contains("ELOOP") {
-        return ("symlink-budget-differs".into(), format!("lookup crossed {links_followed} symlinks: {detail}"));
+    // the documented divergence, narrowly: the *kernel* says ELOOP (more than 40 links), the
+    // library does not, and the library crossed 41..127 links (its own budget is 128). Anything
+    // else in the neighbourhood is not that finding: the library saying ELOOP where the kernel
+    // resolves the path, or the library crossing 128 links or more.
+    let kernel_eloop = detail.contains("kernel says ELOOP") || detail.contains("vs kernel ELOOP") || detail.contains("kernel Err(\"ELOOP\")");
+    let lib_eloop = detail.contains("library ELOOP") || detail.contains(":ELOOP");
+    if kernel_eloop && !lib_eloop {
+        if links_followed > 40 && links_followed < 128 {
+            return ("symlink-budget-differs".into(), format!("lookup crossed {links_followed} symlinks: {detail}"));
+        }
+        if links_followed > 20 && links_followed <= 40 {
+            // the kernel's own answer is unreliable for 21..40 links (9.2): not a statement about the library
+            return ("kernel-eloop-band".into(), detail);
+        }
+        if links_followed >= 128 {
+            return ("symlink-budget-exceeded".into(), format!("lookup crossed {links_followed} symlinks without ELOOP: {detail}"));
+        }
     }
     (clause, detail)
 }
@@ -237,8 +282,14 @@ impl Hooks for H {
                 self.nontrivial.push((rec.idx, true));
                 return;
             }
-            let links = ctx.out.trace.iter().filter(|e| e.step >= rec.begin_step && e.thread == rec.thread && e.nr == libc::SYS_readlinkat).count();
+            // links of the tree that were read (the library also reads procfs links, for its '..' checks)
+            let links = ctx.out.trace.iter().filter(|e| e.step >= rec.begin_step && e.thread == rec.thread && e.nr == libc::SYS_readlinkat && matches!(e.dir.as_ref().map(|d| &d.prov), Some(crate::sup::Prov::Tree(..)) | Some(crate::sup::Prov::TreeUnknown))).count();
             let (clause, detail) = refine(clause, detail, rec, links);
+            if clause == "kernel-eloop-band" {
+                ctx.out.probe("kernel_eloop_band_21_40_links(emulated side)");
+                self.nontrivial.push((rec.idx, true));
+                return;
+            }
             self.found.push((rec.idx, clause, detail));
         }
         let nt = match &rec.outcome {
